@@ -9,7 +9,7 @@ from __future__ import annotations
 import ast
 
 from ..dep import signed_leaves, depends_on
-from ..flow import (Ref, Param, LoopVar, Elt, Phi, Acc, Sym, deep_walk, strip_refs, show, facts_at, same_value, unround,
+from ..flow import (Ref, Param, LoopVar, Elt, Phi, Acc, Sym, deep_walk, strip_refs, show, facts_at, same_value, unround, definitions_of,
                     is_rounded, normalise_fact, root_of, pathkey)
 from ..model import AnalysisError, walk_no_nested, unparse
 from .common import (root_of_expr, path_from_param, dominates, const_value, gate_with, floor, line_of, call_name,
@@ -66,8 +66,57 @@ def contents_stores(ff):
     return out
 
 
+def is_old_entry(leaf, rt):
+    """Is `leaf` the value the entry written by the store target `rt` (X.contents[k]) held before?  Forms:
+    X.contents[k], X.contents.get(k, 0), and the value variable of the loop `for k, v in X.contents.items()`."""
+    l = strip_refs(leaf)
+    if not (isinstance(rt, ast.Subscript) and is_attr(rt.value, 'contents')):
+        return False
+    if isinstance(l, ast.Call) and isinstance(l.func, ast.Attribute) and l.func.attr == 'get' and \
+            is_attr(l.func.value, 'contents') and same_object(l.func.value.value, rt.value.value):
+        return same_value(l.args[0], rt.slice) and const_value(l.args[1]) == 0 if len(l.args) == 2 else False
+    if isinstance(l, ast.Subscript) and is_attr(l.value, 'contents') and same_object(l.value.value, rt.value.value):
+        return same_value(l.slice, rt.slice)
+    if isinstance(l, LoopVar) and l.path == (1,):
+        it = strip_refs(l.iter)
+        k = strip_refs(rt.slice)
+        return is_items_of_contents(it) and same_object(it.func.value.value, rt.value.value) and \
+            isinstance(k, LoopVar) and k.loop is l.loop and k.path == (0,)
+    return False
+
+
+def strip_zero_norm(value):
+    """`v = x; if v == -0.0: v = 0.0` makes v a Phi(x, 0.0): the constant arm only normalises a (negative) zero when it
+    is assigned under the test `v == 0`.  Returns x for such a Phi, the value itself otherwise."""
+    v = value
+    seen = 0
+    while isinstance(v, Ref) and not isinstance(v.value, Phi) and seen < 20:
+        v = v.value
+        seen += 1
+    phi = v.value if isinstance(v, Ref) else v
+    if not isinstance(phi, Phi):
+        return value
+    consts = [o for o in phi.options if zero(o)]
+    others = [o for o in phi.options if not zero(o)]
+    if len(others) != 1 or not consts:
+        return value
+    for o in consts:
+        st = getattr(o, 'stmt', None) if isinstance(o, Ref) else None
+        par = getattr(st, 'parent', None)
+        if not (isinstance(par, ast.If) and st in par.body and isinstance(par.test, ast.Compare) and
+                len(par.test.ops) == 1 and isinstance(par.test.ops[0], ast.Eq)):
+            return value
+        sides = [par.test.left, par.test.comparators[0]]
+        names = [x.id for x in sides if isinstance(x, ast.Name)]
+        nums = [x for x in sides if zero(x) or (isinstance(x, ast.UnaryOp) and zero(x.operand))]
+        if not (names == [o.name] and len(nums) == 1):
+            return value
+    return others[0]
+
+
 def can_increase(value, rt, whole):
     """May this store put more of a substance into the container than it held?"""
+    value = strip_zero_norm(value)
     if whole:
         v = strip_refs(value)
         if isinstance(v, ast.Dict) and not v.keys:
@@ -82,10 +131,7 @@ def can_increase(value, rt, whole):
         if isinstance(l, ast.Constant):
             continue
         # the old value of the same container entry is not an increase
-        if isinstance(l, ast.Call) and isinstance(l.func, ast.Attribute) and l.func.attr == 'get' and \
-                is_attr(l.func.value, 'contents') and same_object(l.func.value.value, rt.value.value):
-            continue
-        if isinstance(l, ast.Subscript) and is_attr(l.value, 'contents') and same_object(l.value.value, rt.value.value):
+        if is_old_entry(leaf, rt):
             continue
         return True
     return False
@@ -182,8 +228,7 @@ def run(ctx):
         raise AnalysisError('Container._transfer: cannot find the per-substance factor `amount * ratio`')
     ratio_val, loop = ratio
     ratio_val = strip_clamp(ratio_val)
-    options = ratio_val.options if isinstance(ratio_val, Phi) else [ratio_val]
-    options = [o for o in options if isinstance(o, Ref)]
+    options = [o for o in definitions_of(ratio_val) if isinstance(o, Ref)]
     ctx.ob('C03.R2', tr, tr.node.lineno, 'transfer has a branch per quantity unit (L, g, mol, U)', len(options) >= 4,
            fact=f"{len(options)} definitions of the transfer ratio", why='a quantity unit lost its branch',
            key='unit branch missing', nontrivial=False)
@@ -329,7 +374,7 @@ def run(ctx):
                 ctx.ob('C03.R5', m, ex.line, f"refusal at line {ex.line} raises ValueError", ex.exc == 'ValueError',
                        fact=f"raises {ex.exc}", why='an infeasible request is refused with the wrong exception type',
                        key='refusal type', nontrivial=False)
-    floor(ctx, 'feasibility raise sites', n_ref, 8)
+    floor(ctx, 'feasibility raise sites', n_ref, 5)
 
     # ------------------------------------------------------------------ R6 bake goes through the operations
     bake = model.func('Recipe.bake')
